@@ -74,6 +74,12 @@ class Keeper : public vf::Tracked {
   int baseArg(std::shared_ptr<Base> p) const { vf::rec("call gt::Keeper::baseArg@" + vf::R(*this) + "(" + vf::R(p.get()) + ")=>" + vf::R(p->b)); return p->b; }
   Kind flip(Kind k) const { vf::rec("call gt::Keeper::flip@" + vf::R(*this) + "(" + vf::R((int)k) + ")=>" + vf::R((int)(k == Dog ? Cat : Dog))); return k == Dog ? Cat : Dog; }
 };
+// a class with a by-value member of a wrapped class type (read from MATLAB as a property)
+class Holder : public vf::Tracked {
+ public:
+  Arg item;
+  Holder() : Tracked("gt::Holder"), item(5) { vf::rec("call gt::Holder::Holder()=>" + vf::R(*this)); }
+};
 inline std::shared_ptr<Arg> freeMake(int v) { auto r = std::make_shared<Arg>(v); vf::rec("call gt::freeMake(" + vf::R(v) + ")=>" + vf::R(r.get())); return r; }
 inline int freeUse(const Arg& a) { vf::rec("call gt::freeUse(" + vf::R(a) + ")=>" + vf::R(a.v + 1)); return a.v + 1; }
 }
